@@ -757,6 +757,10 @@ def handle_failure(pid, tier, ent, h, scratch, target, logdir, baseline, known, 
     cmd = kani_cmd(target, [fh], 1, None, 0, playback=True, extra=P.PROPS[pid].get("kani_args", ()))
     rc, out, wall, _ = run_cmd(cmd, scratch, timeout=3600, logfile=os.path.join(logdir, f"cex-{h['name']}.log"))
     cands = extract_playback_tests(out)
+    if h.get("replay") == "no":
+        # the postcondition reads what a contract stand-in recorded; Kani's playback runs WITHOUT stubs, so a
+        # native run says nothing about this obligation: report the failed obligation without a replayed input
+        cands = []
     rp = os.path.join(VERIF, "replays", pid)
     os.makedirs(rp, exist_ok=True)
     rfile = os.path.join(rp, f"{h['name']}.json")
@@ -764,7 +768,11 @@ def handle_failure(pid, tier, ent, h, scratch, target, logdir, baseline, known, 
            "function_under_contract": h.get("fn"), "failed_checks": ent.get("failed_checks"),
            "tier": tier, "verifier": "kani/cbmc"}
     nofail = True
-    if not cands:
+    if h.get("replay") == "no":
+        rec["note"] = ("modular harness (callee replaced by its contract): Kani's concrete playback runs without stubs, "
+                       "so the counterexample is reported as found by the verifier, not replayed natively")
+        rec["verifier_output"] = out[-6000:]
+    elif not cands:
         rec["note"] = "kani produced no concrete playback test for this failure"
         rec["verifier_output"] = out[-4000:]
     pristine = open(os.path.join(scratch, unit.inject_into)).read()
